@@ -57,7 +57,8 @@ Definition guards (b : base) (te : Z * ev) : list rule :=
          else if inner =? sTakeover then when (negb (takeover_ok b i gid val exp)) 2005
          else [2006]
        else if kind =? kDelete then when (negb (inner =? sStopCtx)) 2007
-       else [])
+       else []) ++
+      when (match aget (b_cfgs b) i with Some _ => false | None => true end) 2008
   | EApply op okind rev val =>
       match aget (b_pend b) op with
       | None => [2010]
